@@ -199,7 +199,10 @@ class World:
 
         ns = dict(FORWARD_NAMES, _A=self.anns, _D=self.defaults, _body=self._body)
         try:
-            exec(compile(src, "<c17-program>", "exec"), ns)  # noqa: S102 - generated by the harness itself
+            # (dont_inherit: this module's `from __future__ import annotations` must not leak into the generated function -
+            # its annotations are evaluated objects unless the case asks for postponed ones)
+            flags = __import__("__future__").annotations.compiler_flag if self.case.get("postponed") else 0
+            exec(compile(src, "<c17-program>", "exec", flags=flags, dont_inherit=True), ns)  # noqa: S102 - generated by the harness itself
         except SyntaxError as e:
             raise HarnessError(f"generated source does not compile: {e}\n{src}")
         self.src = src
